@@ -413,7 +413,7 @@ def run(ctx):
     out = C.harness("dl-c15", ["cases", "--tier", ctx.tier], timeout=3000)
     cfgs, cfg_ids, layouts, lay_ids = {}, {}, {}, {}
     cases = []          # (id, coq term, info)
-    resolution, conversion, e2e, bundles = [], [], [], []
+    resolution, conversion, e2e, bundles, multi = [], [], [], [], []
     for line in out.splitlines():
         p = line.split(" ")
         kind = p[0]
@@ -437,6 +437,8 @@ def run(ctx):
             e2e.append(p)
         elif kind == "D":
             bundles.append(p)
+        elif kind == "M":
+            multi.append(p)
         elif kind == "I":
             cases.append((len(cases), "TI %s %s %s" % (q(hx(p[1])), q(hx(p[2])), coq_list(q(hx(x)) for x in p[3:])),
                           {"kind": "I", "line": line}))
@@ -619,6 +621,19 @@ def run(ctx):
         if not ok:
             bundle_bad.append(p)
 
+    # ---- two modules in different folders with the same require spelling: each inlines its own target
+    multi_bad, multi_distinct = [], 0
+    for p in multi:
+        expected, got = p[5], p[7]
+        if p[6] == "distinct" and not expected.startswith("!"):
+            multi_distinct += 1
+        if expected.startswith("!"):
+            ok = got.startswith("!")
+        else:
+            ok = not got.startswith("!") and set(expected.split(",")) == set(got.split(","))
+        if not ok:
+            multi_bad.append(p)
+
     sample_r = [{"config": resolution[k][1], "layout": resolution[k][2], "requiring_file": unhex(resolution[k][3]),
                  "require": unhex(resolution[k][4]), "results_over_all_subsets": sorted(set(
                      (x if x.startswith("!") else unhex(x)) for x in resolution[k][5:]))}
@@ -640,6 +655,9 @@ def run(ctx):
     ctx.stream("bundling through darklua_core::process (configuration file at the configuration location): bundled file "
                "vs the locator hook", len(bundles), bundle_found, [], mismatches=len(bundle_bad))
 
+    ctx.stream("bundles of two modules in different folders that write the same require spelling: files in the bundle vs the "
+               "locator hook applied from each module", len(multi), multi_distinct, [], mismatches=len(multi_bad))
+
     # ---- verdicts
     for key, (count, witness) in sorted(res_dev.items()):
         witness = dict(witness, occurrences=count)
@@ -655,6 +673,16 @@ def run(ctx):
         p = e2e_bad[0]
         ctx.violation("the ConvertRequire rule / process front door generate a different argument than the hooks",
                       {"line": " ".join(p), "mismatches": len(e2e_bad)}, found_input=False)
+    for p in multi_bad[:2]:
+        def names(x):
+            return x if x.startswith("!") or x == "-" else sorted(unhex(y) for y in x.split(","))
+        ctx.violation("a bundle does not inline, for each module, the file its require resolves to from that module "
+                      "(same spelling in two folders)",
+                      {"config": p[1], "modules": p[2], "entry_order": p[3], "require_in_both_modules": unhex(p[4]),
+                       "files_expected_in_bundle": names(p[5]), "files_in_bundle": names(p[7]),
+                       "project": "main.lua requires two modules (a/ and c/b/); each module is `return { <its path>, require(<spelling>) }`; "
+                                  "util.lua, a/util.lua, c/util.lua, c/b/util.lua, x.lua, c/x.lua, a/x.lua, c/b/x.lua, util/init.lua return their path"},
+                      key="bundle-same-spelling:%s:%s:%s" % (p[1], p[2], unhex(p[4])))
     if bundle_bad and not ctx.violations:
         p = bundle_bad[0]
         ctx.violation("bundling through process embeds a different file than the locator hook resolves",
